@@ -327,7 +327,9 @@ def _expfloat(draw):
     x = draw(st.integers(-9, 5))
     m = draw(_f(0.1, 0.999994))
     if draw(st.integers(0, 3)) == 0:
-        m = draw(st.sampled_from([0.1, 0.5, 0.999994, 0.123455, 0.123445, 0.99999]))
+        # incl. mantissas whose fifth digit rounds up into the next decade (0.999995.. -> '10000' with exponent + 1)
+        m = draw(st.sampled_from([0.1, 0.5, 0.999994, 0.123455, 0.123445, 0.99999, 0.999995, 0.9999951, 0.999996,
+                                  0.9999999, 0.99999949, 0.100000001, 0.0999996 * 10]))
     s = draw(st.sampled_from([1, -1]))
     return s * m * 10.0**x
 
